@@ -239,7 +239,7 @@ func c04Directed(c *kit.Ctx, codecName string, cacheOn bool, slices int, rep int
 func runC04(c *kit.Ctx) {
 	kit.InstallHooks()
 	gs := []int{1, 2, 7, 30, 250, 999, 1000, 1001, 3000, 0}
-	npat := c.Pick(40, 1500)
+	npat := c.Pick(40, 500)
 	for pi := 0; pi < npat; pi++ {
 		if !c.Mine(pi) {
 			continue
